@@ -154,6 +154,11 @@ class Color(enum.Enum):
     BLUE = 2
 
 
+class Shade(enum.Enum):
+    RED = 1
+    BLUE = 2
+
+
 @dataclass(frozen=True)
 class VRich(VBase):
     """Properties of many kinds."""
@@ -220,11 +225,63 @@ def make_origins() -> dict[str, Any]:
         }
     )
     ORIGINS["multi"] = MultiOrigin([ORIGINS["a"], ORIGINS["c"]])
+    # origins that differ from "a" / "gen" although they render the same fqn
+    from pyoak.origin import EMPTY_CODE_RANGE, FileSource
+
+    ORIGINS["a_linecol"] = CodeOrigin(_SRC_A, get_code_range(1, 2, 7, 3, 2, 9))  # same indices, other line/column
+    ORIGINS["a_file"] = CodeOrigin(FileSource(Path("srcA")), get_code_range(1, 1, 1, 3, 1, 3))  # other source class, same uri
+    ORIGINS["gen_as_code"] = CodeOrigin(_SRC_A, EMPTY_CODE_RANGE)  # same fields as "gen", other origin class
+    ORIGINS["multi_linecol"] = MultiOrigin([ORIGINS["a_linecol"], ORIGINS["c"]])
     return ORIGINS
+
+
+_STATE_DENY = {"TYPES", "NODE_REGISTRY", "_TYPE_TO_ALL_FIELDS", "_TYPE_TO_CHILD_FIELDS", "_TYPE_TO_PROPS", "__builtins__", "__all__"}
+_STATE_BASELINE: dict[tuple[str, str], Any] = {}
+_STATE_LRU: list[Any] = []
+
+
+def _scan_module_state() -> None:
+    """Hidden-state hygiene: remember every module-level container of pyoak's (non-legacy-registry)
+    modules and every lru_cache outside pyoak.typing, so that the per-path reset can put them
+    back.  A path must never depend on the paths explored before it in the same process."""
+    import sys
+
+    for name, mod in list(sys.modules.items()):
+        if not (name == "pyoak" or name.startswith("pyoak.")) or mod is None:
+            continue
+        for attr, val in list(vars(mod).items()):
+            if attr in _STATE_DENY or attr.startswith("__"):
+                continue
+            if type(val) in (dict, list, set) and (name, attr) not in _STATE_BASELINE:
+                _STATE_BASELINE[(name, attr)] = (val, type(val)(val))
+            elif hasattr(val, "cache_clear") and hasattr(val, "cache_info") and name != "pyoak.typing" and val not in _STATE_LRU:
+                _STATE_LRU.append(val)
+
+
+def _restore_module_state() -> None:
+    for (_m, _a), (obj, base) in _STATE_BASELINE.items():
+        if obj != base:
+            obj.clear()
+            if isinstance(obj, dict):
+                obj.update(base)
+            elif isinstance(obj, list):
+                obj.extend(base)
+            else:
+                obj.update(base)
+    for fn in _STATE_LRU:
+        fn.cache_clear()
 
 
 def reset_all() -> None:
     """Per-path reset of every process-global registry / cache of pyoak."""
+    if not _STATE_BASELINE:
+        import pyoak.match.pattern  # noqa: F401
+        import pyoak.match.xpath  # noqa: F401
+        import pyoak.tree  # noqa: F401
+        import pyoak.visitor  # noqa: F401
+
+        _scan_module_state()
+    _restore_module_state()
     from pyoak import config
     from pyoak.node import NODE_REGISTRY
     from pyoak.origin import Source
